@@ -1583,6 +1583,21 @@ def metacall():
         except KeyError:
             pass
 
+        if cls is Predicate:
+            # System predicates cannot be constructed, so when the cache
+            # no longer has the spec, look it up in the enum.
+            coords = spec[0] if len(spec) == 1 else spec
+            if (
+                isinstance(coords, tuple) and
+                len(coords) == 3 and
+                isinstance(coords[0], int) and
+                coords[0] < 0
+            ):
+                try:
+                    return Predicate.System(coords)
+                except (KeyError, ValueError):
+                    pass
+
         try:
             # Construct
             inst: LexicalAbc = supercall(cls, *spec)
